@@ -24,7 +24,10 @@ import (
 //
 // usage: zeno-verif c03 <scratch-dir> <trace> <workers> <pool> <async 0|1> <ratelimit 0|1> <seencheck 0|1> <proxy 0|1> <moment>
 //
-//	moment: idle | drained | paused | diskpaused | midfetch | hook:<point>:<k> | hold:<point>:<k>
+//	moment: idle | drained | paused | diskpaused | midfetch | midfetch-discard | midfetch-cut | hook:<point>:<k> | hold:<point>:<k>
+//
+// midfetch-*: the answer the origin holds back until after Stop was called is one the WARC library ends with an error
+// for - a status in --warc-discard-status, or a body cut in mid-transfer.
 //
 // hook: Stop is requested when the k-th occurrence of the point is reached, the goroutine that reached it runs on.
 // hold: the same, but that goroutine is kept at the point until Stop has run ahead as far as it can without it
@@ -57,6 +60,7 @@ func c03(args []string) error {
 		c.DisableSeencheck = !seen
 		c.MaxRetry = 1
 		c.HTTPTimeout = 4
+		c.WARCDiscardStatus = []int{418}
 		if proxy {
 			c.Proxy = "socks5://" + px.Addr()
 		}
@@ -79,9 +83,17 @@ func c03(args []string) error {
 		seeds = append(seeds, Seed{ID: id, Value: u})
 		ids = append(ids, id)
 	}
-	if moment == "midfetch" {
+	midfetch := strings.HasPrefix(moment, "midfetch")
+	if midfetch {
 		// a response the origin holds back until well after Stop was called
-		run.org.Route(0, "/slow/held.bin", origin.Resp{Status: 200, Headers: map[string]string{"Content-Type": "application/octet-stream"}, BodyGen: &origin.BodyGen{Kind: "binary", Size: 5000, Seed: 1}, Gate: "held"})
+		held := origin.Resp{Status: 200, Headers: map[string]string{"Content-Type": "application/octet-stream"}, BodyGen: &origin.BodyGen{Kind: "binary", Size: 5000, Seed: 1}, Gate: "held"}
+		switch moment {
+		case "midfetch-discard":
+			held.Status = 418
+		case "midfetch-cut":
+			held.BodyGen.Size, held.CutAfter = 400000, 150000
+		}
+		run.org.Route(0, "/slow/held.bin", held)
 		seeds = append([]Seed{{ID: "seed-held", Value: run.org.URL(0, "/slow/held.bin")}}, seeds...)
 	}
 	if err := run.Preload(seeds); err != nil {
@@ -127,7 +139,7 @@ func c03(args []string) error {
 		if p == "req" {
 		}
 	}
-	if moment == "midfetch" {
+	if midfetch {
 		run.annotate = func(ev map[string]any) {
 			if ev["ev"] == "req" && strings.Contains(fmt.Sprint(ev["uri"]), "/slow/held.bin") {
 				fire("held request arrived")
@@ -163,7 +175,7 @@ func c03(args []string) error {
 			run.tr.Emit(map[string]any{"ev": "paused.by", "who": "operator", "paused": pause.IsPaused()})
 		}
 	}
-	if moment == "midfetch" {
+	if midfetch {
 		go func() { time.Sleep(1500 * time.Millisecond); run.org.Open("held") }()
 	}
 	// the bound comes from the configuration: one HTTP timeout per attempt, retry sleeps, writer drain
